@@ -367,6 +367,13 @@ func (fc *FCtx) specBin(n *SNode, env *Env) Val {
 	y := fc.specEval(n.Args[1], env)
 	switch n.Name {
 	case "==", "!=":
+		// nil compared with a byte string
+		if isBz(x.S) && n.Args[1].Op == "id" && n.Args[1].Name == "nil" {
+			y = Val{T: "bz_nil", S: x.S}
+		}
+		if isBz(y.S) && n.Args[0].Op == "id" && n.Args[0].Name == "nil" {
+			x = Val{T: "bz_nil", S: y.S}
+		}
 		if x.S != y.S && !(x.S.Kind == KInt && y.S.Kind == KInt) {
 			oos("spec: comparing %s with %s in %q", x.S.Name, y.S.Name, n.String())
 		}
@@ -874,7 +881,11 @@ func (fc *FCtx) specCall(n *SNode, env *Env) Val {
 			oos("spec: %s expects %d arguments", sf.Name, len(sf.Params))
 		}
 		var ts []string
-		for _, a := range args {
+		for i, a := range args {
+			// the literal nil passed for a byte-string parameter
+			if ps, _ := fc.resolveSpecType(sf.Params[i].Type, fc.E.pkgs[sf.Pkg]); ps != nil && isBz(ps) && a.S == SInt && a.T == "0" && n.Args[i+1].Op == "id" && n.Args[i+1].Name == "nil" {
+				a.T = "bz_nil"
+			}
 			ts = append(ts, a.T)
 		}
 		return Val{T: app("spec_"+sf.Name, ts...), S: fc.specRet(sf)}
